@@ -128,8 +128,6 @@ impl Prop for C12 {
                     Err((class, detail)) => {
                         let class = if obs.has_fallback() {
                             "wrap-fallback".to_string()
-                        } else if class == "literal-indentation" && li > 0 && obs.reflowed() && wf::two_mlstr_in_statement(&input) {
-                            "second-literal-stale-indent".to_string()
                         } else {
                             class
                         };
